@@ -565,6 +565,15 @@ func (f *frame) instr(ins ssa.Instruction, pc string, st *State) string {
 		v := f.val(i.Val)
 		if a, ok := i.Addr.(*ssa.Alloc); ok && !a.Heap && f.isCell(a) {
 			st.cells[a] = v
+		} else if stt, pe, ok := structPointee(i.Addr); ok && f.addrs[i.Addr].kind == "" {
+			// store of a whole struct value through a pointer (x := *p; q := &x): field by field
+			ref := f.val(i.Addr)
+			f.panicOb("nil", pc, not(eq(ref.S, "0")), i.Pos(), "nil pointer dereference")
+			so := g.sortOf(pe)
+			for k := 0; k < stt.NumFields(); k++ {
+				h, _ := g.fieldHeapOf(pe, k)
+				g.writeHeap(st, h, ref.S, app(structName(so)+"."+stt.Field(k).Name(), v.S))
+			}
 		} else {
 			f.store(st, f.addrOf(i.Addr), v)
 		}
@@ -1368,4 +1377,14 @@ func divTerm(name, a, b string) string {
 		return "(" + name + " " + a + " " + b + ")"
 	}
 	return "(u" + name + " " + a + " " + b + ")"
+}
+
+// structPointee: v is a pointer to a struct type.
+func structPointee(v ssa.Value) (*types.Struct, types.Type, bool) {
+	pt, ok := v.Type().Underlying().(*types.Pointer)
+	if !ok {
+		return nil, nil, false
+	}
+	stt, ok := pt.Elem().Underlying().(*types.Struct)
+	return stt, pt.Elem(), ok
 }
